@@ -13,7 +13,8 @@ const quickN, thoroughN = 30000, 2000000
 const rule = "programs: 2-4 objects (tables, and userdata made by a host function) with metatables drawn from random event subsets, shared or distinct metatables, shared or distinct-but-equivalent comparison handlers, " +
 	"__index/__newindex as function or table chained to earlier objects and up to the loop limit; every handler first emits (event@object, operands in the order received); " +
 	"8-32 protected operations: every arithmetic/concat operator with operand pairs from {object, other object, number, numeric string, string, nil, boolean, plain table} in both orders and in constant and register form, " +
-	"== ~= < <= > >=, unary minus, index, assignment to present/absent keys, calls (plain and tail position), tostring, getmetatable/setmetatable with __metatable, rawget/rawequal; " +
+	"== ~= < <= > >=, unary minus, index (key as constant, local, number, boolean, object; method-call form), assignment to present/absent keys whose present values include false, 0 and \"\" (key in every form, values false/nil/number/string, also rawset), " +
+	"calls (plain and tail position, __call as the iterator of a generic for), tostring, getmetatable/setmetatable with __metatable, rawget/rawequal; handlers are Lua functions or host (Go) functions (hosth records and returns its arguments; rawget/rawequal as __call); __newindex chains through tables to the loop limit; " +
 	"trace compared with the reference interpreter (line-by-line transcription of manual 2.8); non-trivial = >=3 handler events; distinct by source hash"
 
 var assumptions = []string{
